@@ -64,10 +64,15 @@ func observeParse(line string, id int) lineEvent {
 	case r == nil:
 		e.Outcome = "nothing"
 	default:
-		e.Outcome = "rule"
-		e.Kind = kindOfRule(r, nil)
-		e.Text = bytesToInts(r.Text())
-		e.GotID = r.GetFilterListID()
+		// what comes back as a rule is used as one: its accessors are part of "parsing never crashes"
+		if pv2 := safeCall(func() {
+			e.Outcome = "rule"
+			e.Kind = kindOfRule(r, nil)
+			e.Text = bytesToInts(r.Text())
+			e.GotID = r.GetFilterListID()
+		}); pv2 != "" {
+			e.Outcome, e.Detail, e.Kind, e.Text = "panic", "the value returned as a rule cannot be used: "+pv2, "", []int{}
+		}
 	}
 	return e
 }
